@@ -53,6 +53,12 @@ TXT = {
  "C16": ("fault_enumeration", "§8 C16",
          "For each scenario the stop request (graceful and immediate, plus the one-shot stop right after start) is placed at sampled (quick) or all (thorough, <=150) indices of the sender's action sequence: the sender must exit within the bound (a panic or a hang is a violation), positive verdicts must be on disk in the queue cache, and fault-free graceful stops deliver everything the scans found.",
          "stop-position enumeration inside the W1 simulation"),
+ "C17": ("exploration", "§8 C17",
+         "Seeded search in W1 over trees with nested/hidden directories, lock files, zero-length files, the disable marker coming and going, include/ignore sets, a non-HTTP tag, minimum ages on both sides of each file's age, and files appearing / rewritten / touched / replaced between and during scans: every file a scan returns or the sender announces must be eligible under an independent statement of the rules, announced versions must have existed, ineligible files are never transmitted or removed, unchanged versions are not picked up twice, and every eligible final version arrives.",
+         "W1 simulation + independent eligibility model"),
+ "C20": ("exploration", "§8 C20",
+         "Seeded search in W2: staging contents of every kind (plain partials, partial of a NEW version of a delivered name, late duplicate of a delivered file, held file, complete-but-unvalidated file, partial with a gap) are produced through the real receive protocol, aged to either side of 24 h, and cleaned by the operator route, prune and the 30-minute timer at tape-chosen moments (with crashes in between); the staging tree is diffed across every cleaning pass - removed partials/companions must belong to a delivered or logged (name, hash), removed directories must have been empty and old enough - and the interrupted transfers must complete afterwards without any byte being sent twice.",
+         "W2 simulation + staging-tree diff across cleaning passes"),
  "C18": ("exploration", "§8 C18",
          "Seeded search in W4: the real log.FileIO under 1-4 interleaved caller tasks on a fake clock crossing midnights and month ends; look-ups and replays are judged against a record-list model (exact name and hash, days the window touches) and histories of <=40 operations are checked for linearizability with porcupine.",
          "W4 component simulation of log.FileIO + record-list model + porcupine"),
@@ -64,10 +70,7 @@ NOTE = ("Trusted: the Go toolchain (go1.26.8 testing/synctest), the harness (sch
 NA = [
  {"property_id": "C19", "reason": "pure function of the configuration document (inheritance, explicit false, JSON round trip): no schedule, clock, fault or I/O to simulate; generating configurations would be input generation, not this technique (DESIGN.md §9)"},
 ]
-PENDING = {
- "C17": "check not built yet (eligibility scenarios in W1) - not claimed",
- "C20": "check not built yet (cleaning segments in W1/W2) - not claimed",
-}
+PENDING = {}
 
 
 def main():
